@@ -366,6 +366,17 @@ class ASTRewriter(ast.NodeTransformer):
                 and isinstance(_sval.slice, ast.Tuple)
                 and isinstance(arg.slice, ast.Constant)
             ):
+                # The number of elements is the one of the selected inner tuple
+                _inner = _sval.slice.elts[arg.slice.value]
+                if isinstance(_inner, ast.Subscript) and isinstance(
+                    _inner.slice, ast.Tuple
+                ):
+                    _n_elts = len(_inner.slice.elts)
+                elif isinstance(_inner, ast.Tuple):
+                    _n_elts = len(_inner.elts)
+                else:
+                    _n_elts = len(_sval.slice.elts)
+
                 return [
                     ast.Subscript(
                         value=ast.Subscript(
@@ -374,7 +385,7 @@ class ASTRewriter(ast.NodeTransformer):
                         ),
                         slice=ast.Constant(value=i, kind=None),
                     )
-                    for i in range(len(_sval.slice.elts))
+                    for i in range(_n_elts)
                 ]
         elif isinstance(arg, ast.Name):
             # If it's a name, is in env and is a Tuple, return elements
